@@ -18,6 +18,8 @@ Decided:
     each split into its own low/high words (C10.M2/C11.W3 traces).  P11 free-list relink rules (C03.E6).
  P12 a blocking driver loop returns Ok only after every request it shared was popped; in-flight bookkeeping is released only
     after the pop (C20.Z8 / C20.Z7).  P13 block completions present the lists of their submission (C14.K3/K4).
+ P16 a blocking helper pops the token its own add returned (= C03.E8).  P17 a completion is consumed only together with the
+     release of its chain; a refused poll advances nothing (= C03.E1 / E2).
 Not decided: exactly once per buffer over a history (rests on the free-list invariant).
 """
 from .common import *
